@@ -266,7 +266,7 @@ Proof.
   2:{ simpl in G |- *. exists L, y. split; [apply AInv_err; auto|]. eapply (LInv_obs d g); eauto. }
   destruct (checked_add16 (sec_count s w2) 1) as [c|] eqn:Ec; simpl in G |- *.
   2:{ exists L, y. split; [apply AInv_err; auto|]. eapply (LInv_obs d g); eauto. }
-  destruct P as [L' [G' [Hi' [A' [V' [Vs [Hc' [Hq' [r [R [Rp [Re [Rd Rt]]]]]]]]]]]]]. simpl in Hq', Rp.
+  destruct P as [L' [G' [Hi' [A' [V' [Vs [Hc' [Hq' [r [R [Rp [Re [Rd [Rt Rpl]]]]]]]]]]]]]]. simpl in Hq', Rp, Rpl.
   apply ext_unsection in F.
   exists L', (mkLay (y_qs y) (y_rrs y ++ [r])). split.
   - apply (AInv_set_sec_count (mkD w2 _) _ L' s c).
@@ -280,10 +280,10 @@ Proof.
         - intros s0. rewrite Rt. unfold rrs_starts. simpl. rewrite app_nil_r. tauto. }
       destruct s; simpl; rewrite ?(x_rs _ _ _ F); exact PL.
     + simpl in Sf.
-      apply (FLay_add (d_w d) y A s w2 c [r] [mkAR n (exact_of (am_mode A)) ty cl (ttl_rfc ttl) rd]); auto;
+      apply (FLay_add (d_w d) y A s w2 c [r] [mkAR n (am_mode A) ty cl (ttl_rfc ttl) rd]); auto;
         try apply F.
-      constructor; [|constructor]. unfold rr_desc2. simpl.
-      rewrite (f_mode _ _ _ HF), <- exactf_of, <- ttl_from_rfc. simpl in Rd. exact Rd.
+      constructor; [|constructor]. unfold rr_desc2, ar_exact. simpl.
+      rewrite (f_mode _ _ _ HF), <- exactf_of, <- ttl_from_rfc. simpl in Rd. split; [exact Rd|exact Rpl].
 Qed.
 
 Lemma Forall2_map_r {A B C} (P : A -> C -> Prop) (f : B -> C) l1 l2 :
@@ -317,7 +317,7 @@ Proof.
   { exists L, y. split; [apply AInv_err; auto|]. eapply (LInv_obs d g); eauto. }
   destruct (checked_add16 (sec_count s w2) (N.of_nat k)) as [c|] eqn:Ec; simpl in G |- *.
   2:{ exists L, y. split; [apply AInv_err; auto|]. eapply (LInv_obs d g); eauto. }
-  destruct P as [L' [G' [Hi' [A' [V' [Vs [Hk [Hc' [Hm' [Hq' [rs [R [Rd Rt]]]]]]]]]]]]]. simpl in Hq', R.
+  destruct P as [L' [G' [Hi' [A' [V' [Vs [Hk [Hc' [Hm' [Hq' [rs [R [Rd [Rt Rpl]]]]]]]]]]]]]]. simpl in Hq', R, Rpl.
   apply ext_unsection in F.
   exists L', (mkLay (y_qs y) (y_rrs y ++ rs)). split.
   - apply (AInv_set_sec_count (mkD w2 _) _ L' s c).
@@ -329,10 +329,13 @@ Proof.
       { apply (PLay_append d g y A L w2 L' rs Hi (conj HP HF) F G'); auto. }
       destruct s; simpl; rewrite ?(x_rs _ _ _ F); exact PL.
     + simpl in Sf.
-      apply (FLay_add (d_w d) y A s w2 c rs (map (mkAR n (exact_of (am_mode A)) ty cl (ttl_rfc ttl)) rds)); auto;
+      apply (FLay_add (d_w d) y A s w2 c rs (map (mkAR n (am_mode A) ty cl (ttl_rfc ttl)) rds)); auto;
         try apply F.
-      * apply Forall2_map_r. unfold rr_desc2. simpl.
-        rewrite (f_mode _ _ _ HF), <- exactf_of, <- ttl_from_rfc. simpl in Rd. exact Rd.
+      * apply Forall2_map_r. unfold rr_desc2, ar_exact. simpl.
+        rewrite (f_mode _ _ _ HF), <- exactf_of, <- ttl_from_rfc. simpl in Rd.
+        clear - Rd Rpl. induction Rd as [|r rd rs0 rds0 Hr _ IH]; constructor.
+        -- split; auto. intros Hd. specialize (Rpl Hd). inversion Rpl; auto.
+        -- apply IH. intros Hd. specialize (Rpl Hd). inversion Rpl; auto.
       * rewrite map_length. simpl in Hk. subst k. exact Ec.
 Qed.
 
@@ -349,7 +352,7 @@ Proof.
     [|simpl in G |- *; exists L, y; split; [apply AInv_obs; auto|eapply (LInv_obs d g); eauto]].
   unfold with_rollback in *.
   pose proof (write_unhinted_L _ n (d_w d) L (a_ni _ _ _ Hi) Hwf) as P1.
-  destruct (write_unhinted_name n (d_w d)) as [[pr w1]|[e w1]|]; simpl in P1; cbn [bind] in *.
+  destruct (write_unhinted_name n (d_w d)) as [[pr w1]|[e w1]|] eqn:Ewq; simpl in P1; cbn [bind] in *.
   3:{ exact P1. }
   2:{ simpl in G |- *. exists L, y. split; [apply AInv_obs; auto|eapply (LInv_obs d g); eauto]. }
   destruct P1 as [W [Hsz [_ [L1 [G1 [Hi1 [HpL [sh [Hsh Ht1]]]]]]]]].
@@ -434,7 +437,10 @@ Proof.
     + apply checked_add16_some in Enq as [Enq Hbq].
       constructor; simpl.
       * apply Forall2_app; auto. constructor; [|constructor].
-        unfold q_desc, q. simpl. rewrite Fm, exactf_of. auto.
+        unfold q_desc, q, aq_exact. simpl. rewrite Fm, exactf_of. split; [auto|].
+        intros Hd. destruct sh as [[k pp]|]; auto. exfalso.
+        destruct (disabled_plain_unhinted n (d_w d) pr w1 Hd Ewq) as [Hpl _].
+        eapply shape_plain_unique; eauto.
       * rewrite Fa, Fn, Fra. constructor.
       * rewrite (x_mode _ _ _ X3), (x_mode _ _ _ X2), Em1, (x_mode _ _ _ X). exact Fm.
       * rewrite Enq, Cq, app_length. simpl. lia.
@@ -665,15 +671,17 @@ Lemma add_rr_fits2 h owner ty cl ttl rd v w L names gq go gr :
                ext (w_cursor w) w w' /\
                exists r, rr_at (w_buf w') L' r /\ nc_pos (lr_owner r) = w_cursor w /\ lr_end r = w_cursor w' /\
                          rr_desc r owner (exactf (w_mode w)) ty cl ttl (component_types cl ty) rd /\
-                         forall s, L' s <-> L s \/ In s (rr_starts r).
+                         (forall s, L' s <-> L s \/ In s (rr_starts r)) /\
+                         (w_mode w = Disabled -> rr_plain r).
 Proof.
   intros Hi A V Hwf Hrd Hh HhL Hct Hfit.
   pose proof (add_rr_L h owner ty cl ttl rd v w L names gq go gr Hi A V Hwf Hrd Hh HhL) as P.
   assert (Hpre : pre (w_cursor w) w) by (split; [lia|apply Hi]).
   pose proof (frame_add_rr (w_cursor w) h owner ty cl ttl rd v w Hpre) as F.
   destruct (add_rr h owner ty cl ttl rd v w) as [[v' w']|[e w']|]; simpl in P, F.
-  - exists v', w'. split; auto. destruct P as [L' [G' [Hi' [A' [_ [_ [Hc' [_ R]]]]]]]].
-    exists L'. rewrite Hct in A'. simpl in A'. auto 10.
+  - exists v', w'. split; auto. destruct P as [L' [G' [Hi' [A' [_ [_ [Hc' [_ [r [R1 [R2 [R3 [R4 [R5 R6]]]]]]]]]]]]]].
+    exists L'. rewrite Hct in A'. simpl in A'. split; auto. split; auto. split; auto. split; auto.
+    exists r. auto 10.
   - rewrite Hct in P. destruct P as [[_ K]|[_ K]]; [lia|congruence].
   - contradiction.
 Qed.
@@ -681,10 +689,10 @@ Qed.
 (* the pseudo-records finish appends, read off the writer's EDNS / TSIG fields *)
 Definition pseudo (w : writer) : list arr :=
   (match w_edns w with
-   | Some e => [mkAR [] (exactf (w_mode w)) TYPE_OPT (e_udp e) (e_upper e * 16777216)%N []]
+   | Some e => [mkAR [] (w_mode w) TYPE_OPT (e_udp e) (e_upper e * 16777216)%N []]
    | None => [] end) ++
   (match w_tsig w with
-   | Some t => [mkAR (t_key t) (exactf (w_mode w)) TYPE_TSIG qclass_any (ttl_from 0) (tsig_unsigned_rdata t)]
+   | Some t => [mkAR (t_key t) (w_mode w) TYPE_TSIG qclass_any (ttl_from 0) (tsig_unsigned_rdata t)]
    | None => [] end).
 
 Lemma w_write_slice w pos data w' : w_write w pos data = Ok w' ->
@@ -771,7 +779,7 @@ Proof.
     rrs_at (w_buf w5) L5 rs5 c0 (w_cursor w5) /\ (forall s, L5 s <-> L s \/ In s (rrs_starts rs5)) /\
     Forall2 rr_desc2 rs5
       match w_edns w4 with
-      | Some e => [mkAR [] (exactf (w_mode w4)) TYPE_OPT (e_udp e) (e_upper e * 16777216)%N []]
+      | Some e => [mkAR [] (w_mode w4) TYPE_OPT (e_udp e) (e_upper e * 16777216)%N []]
       | None => [] end).
   { destruct Hn4 as [h1 h2 h3 h4 h5]. unfold resv in h4.
     destruct (w_edns w4) as [e|] eqn:Ee.
@@ -780,7 +788,7 @@ Proof.
       { unfold w4'. apply NInv_set_avail; auto; simpl; destruct (w_tsig w4); lia. }
       destruct (add_rr_fits2 HNone [] TYPE_OPT (e_udp e) (e_upper e * 16777216)%N [] None w4' L []
                   (g_q g) (g_o g) (g_r g) Hi4' A4' I)
-        as [v' [w5 [E5 [L5 [G5 [Hi5 [A5 [X5 [r5 [R5 [Rp5 [Re5 [Rd5 Rt5]]]]]]]]]]]]].
+        as [v' [w5 [E5 [L5 [G5 [Hi5 [A5 [X5 [r5 [R5 [Rp5 [Re5 [Rd5 [Rt5 Rpl5]]]]]]]]]]]]]].
       + split; [constructor|simpl; lia].
       + constructor.
       + exact I.
@@ -797,7 +805,7 @@ Proof.
           unfold opt_record_size in *. simpl in *. destruct (w_tsig w4); lia. }
         split; [simpl; split; auto; split; auto; split; [lia|auto]|].
         split; [intros s; rewrite Rt5; unfold rrs_starts; simpl; rewrite app_nil_r; tauto|].
-        constructor; [|constructor]. unfold rr_desc2. simpl. exact Rd5.
+        constructor; [|constructor]. unfold rr_desc2, ar_exact. simpl. rewrite <- exactf_of. split; [exact Rd5|exact Rpl5].
     - exists w4, L, []. split; auto. split; auto. split; auto. split; [eauto|].
       split; [apply agree_refl|]. split; [lia|]. split; auto. split; auto.
       split; [destruct (w_tsig w4); lia|]. split; [simpl; lia|]. split; [intros s; simpl; tauto|constructor]. }
@@ -817,7 +825,7 @@ Proof.
     { unfold w5'. apply NInv_set_avail; [apply NInv_clear_tsig; exact Hi5|simpl; lia|simpl; lia]. }
     destruct (add_rr_fits2 HNone (t_key t) TYPE_TSIG qclass_any (ttl_from 0) (tsig_unsigned_rdata t) None w5' L5 []
                 (g_q g) go5 (g_r g) Hi5' A5 I)
-      as [v' [w6 [E6 [L6 [G6 [Hi6 [A6 [X6 [r6 [R6 [Rp6 [Re6 [Rd6 Rt6]]]]]]]]]]]]].
+      as [v' [w6 [E6 [L6 [G6 [Hi6 [A6 [X6 [r6 [R6 [Rp6 [Re6 [Rd6 [Rt6 Rpl6]]]]]]]]]]]]]].
     + apply Twf.
     + exact Toct.
     + exact I.
@@ -839,8 +847,9 @@ Proof.
       assert (Et4 : w_tsig w4 = Some t) by congruence.
       rewrite Et4.
       split.
-      { apply Forall2_app; auto. constructor; [|constructor]. unfold rr_desc2. simpl.
-        unfold w5' in Rd6. simpl in Rd6. rewrite Hm5 in Rd6. exact Rd6. }
+      { apply Forall2_app; auto. constructor; [|constructor]. unfold rr_desc2, ar_exact. simpl.
+        unfold w5' in Rd6, Rpl6. simpl in Rd6, Rpl6. rewrite Hm5 in Rd6, Rpl6. rewrite <- exactf_of.
+        split; [exact Rd6|exact Rpl6]. }
       split.
       { transitivity (slice (w_buf w5) 4 12); [|rewrite Hdr5; exact Hdr].
         apply (agree_slice (w_cursor w5)); auto.
